@@ -119,10 +119,15 @@ def mk_tc(p, via="ctor"):
         tc = PusTc(service=p["service"], subservice=p["subservice"], apid=(p["apid"] + 1) % 2048, app_data=data + b"\x55",
                    seq_count=(p["seq"] + 1) % 16384, source_id=(p["source"] + 1) % 65536, ack_flags=p["ack"])
         tc.pack()
+        view = tc.to_space_packet()          # a generic view handed out BEFORE the changes ...
         tc.apid = p["apid"]
         tc.seq_count = p["seq"]
         tc.source_id = p["source"]
         assign_grown(tc, "app_data", data)
+        try:
+            view.pack()                      # ... and used after them: it is a view, the telecommand is not its scratch pad
+        except Exception:  # noqa
+            pass
         return tc
     if (p["apid"] + p["seq"] + len(data)) % 3 == 1:
         from spacepackets.ecss import PusTelecommand            # the constructor under its other public name
@@ -161,8 +166,13 @@ def mk_tm(p, via="tm"):
                    message_counter=p["msgcnt"], space_time_ref=p["timeref"], destination_id=p["dest"],
                    packet_version=p["ver"])
         tm.pack()
+        view = tm.to_space_packet()
         tm.apid = p["apid"]
         assign_grown(tm, "tm_data", p["data"])
+        try:
+            view.pack()
+        except Exception:  # noqa
+            pass
         return tm
     cls = PusTm
     if (p["apid"] + p["seq"] + len(p["data"])) % 3 == 1:
